@@ -151,8 +151,13 @@ func runC06(e *core.Env) {
 }
 
 func nearDate(r *core.Rand) *ref.Date {
-	if r.Bool() {
+	switch r.Intn(8) {
+	case 0, 1, 2:
 		return &ref.Date{Y: 2024, M: 3, D: 15}
+	case 3: // the ends of the calendar: every date computation that steps beyond a record's date is one step from the edge
+		return &ref.Date{Y: 9999, M: 12, D: 28}
+	case 4:
+		return &ref.Date{Y: 0, M: 1, D: 4}
 	}
 	return nil
 }
